@@ -11,6 +11,7 @@ import D2P.Check.C16
 import D2P.Check.C13Src
 import D2P.Model.Replace
 import D2P.Model.Save
+import D2P.Props.C02BodyStray
 /-!
 # JSON line protocol between the Python harness and the model
 -/
@@ -343,6 +344,11 @@ def handleValid (j : Json) : Except String Json := do
       [("<package>", toJson (validPkg o a)), ("<comments>", toJson (commentsOK a)),
        -- hypotheses of `C13_merge_total` on the SOURCE trees: every content part is `validT` and passes `goodTree` and `sameWb`
        ("<srcpackage>", toJson (validSrcPkg a)),
+       -- hypothesis of `C02_siblings` (the children of the body form a sequence `C02_items` speaks about), per content part as walked
+       ("<items>", Json.mkObj (cs.map fun r => (String.ofList r.path,
+          match rootElement o a files r with | .ok cr => toJson (itemsOK (bodyKids cr.2)) | .error _ => Json.null))),
+       ("<groups>", toJson ((cs.map fun r => match rootElement o a files r with
+          | .ok cr => ((itemsOf (bodyKids cr.2)).filter fun i => match i with | .grp _ => true | _ => false).length | .error _ => 0).foldl (· + ·) 0)),
        ("<sources>", toJson (cs.all fun r => match a.readXml r.path with | .ok root => validT root && goodTree root && sameWb root | .error _ => true))]))
 
 def handle (line : String) : Json :=
